@@ -6,6 +6,7 @@ import (
 	"bytes"
 	"fmt"
 	"net/http"
+	"reflect"
 	"strings"
 
 	"verif/sim/harness"
@@ -151,6 +152,7 @@ func hostile(c *harness.Ctx, call *Call) {
 				return hdr, body
 			}
 			hdr.Set("Content-Length", fmt.Sprint(len(nb)))
+			e.RespBodySent = nb
 			e.Faults = append(e.Faults, "damage-resp-body:"+how)
 			c.Fault("damage-resp-body")
 			return hdr, nb
@@ -200,7 +202,7 @@ func checkHostile(c *harness.Ctx, w *World, call *Call, where string) bool {
 		if e.Status >= 500 {
 			sig := "server-5xx:" + kind
 			if recovered {
-				sig = "server-recovered-panic:" + kind + ":" + panicSite(e.RespBody)
+				sig = "server-recovered-panic:" + kind + ":" + panicSite(e.RespBody) + ":" + panicClass(e.RespBody) + ":" + methodClass(call, w)
 			}
 			c.Fail("C04", "malformed-request-5xx", sig, "%s: a malformed request (%s; %s; body %q) was answered %d: %s", where, detail, firstLine(e.ReqBytes), clip(bodyOf(e.ReqBytes), 200), e.Status, clip(e.RespBody, 700))
 			return true
@@ -208,6 +210,19 @@ func checkHostile(c *harness.Ctx, w *World, call *Call, where string) bool {
 		if len(call.Inv) > 1 {
 			c.Fail("C04", "malformed-request-multi-dispatch", "malformed-request-multi-dispatch", "%s: resource invoked %d times for one request", where, len(call.Inv))
 			return true
+		}
+		// independent well-formedness checks: a body that encoding/json rejects, or a path key / query
+		// with unbalanced parentheses, is malformed whatever the library thinks
+		if e.Status < 400 || len(call.Inv) > 0 {
+			_, uri, _, body := parseWire(e.ReqBytes)
+			if kind == "damage-body" && len(body) > 0 && !structurallyValidJSON(body) && takesBody(call) {
+				c.Fail("C04", "malformed-body-accepted", "malformed-body-accepted:"+methodClass(call, w), "%s: the request body is not valid JSON (%s) yet it was served: status %d, invocations %d; body %q", where, detail, e.Status, len(call.Inv), clip(body, 300))
+				return true
+			}
+			if (kind == "damage-path" || kind == "damage-query") && unbalancedKeys(uri) {
+				c.Fail("C04", "unbalanced-ror2-accepted", "unbalanced-ror2-accepted:"+kind+":"+methodClass(call, w), "%s: the request target has unbalanced parentheses (%s) yet it was served: %s -> status %d, invocations %d", where, detail, firstLine(e.ReqBytes), e.Status, len(call.Inv))
+				return true
+			}
 		}
 		if e.Status >= 400 && e.Status < 500 {
 			c.Probe("malformed-request-rejected-4xx")
@@ -220,12 +235,183 @@ func checkHostile(c *harness.Ctx, w *World, call *Call, where string) bool {
 		return true
 	}
 	// damaged response: the client returns a value or an error, never panics (checked above)
+	if call.Err == nil && kind == "damage-resp-body" && call.Out.Kind == "value" {
+		if rb := e.RespBodySent; len(rb) > 0 && !structurallyValidJSON(rb) {
+			c.Fail("C04", "malformed-response-accepted", "malformed-response-accepted:"+methodClass(call, w), "%s: the response body is not valid JSON (%s) yet the client call returned success: %q", where, detail, clip(rb, 300))
+			return true
+		}
+	}
 	if call.Err != nil {
 		c.Probe("malformed-response-error")
 	} else {
 		c.Probe("damaged-response-still-decoded")
 	}
 	return true
+}
+
+// structurallyValidJSON checks STRUCTURE only, written from the JSON grammar and deliberately
+// lenient about lexical detail where parsers commonly are (any run of non-structural bytes is a
+// scalar: leading zeros, raw control characters inside strings etc. are not "malformed" here):
+// exactly one complete top-level value, objects as "key":value lists, arrays as value lists, strings
+// closed, nothing but blanks after the end.
+func structurallyValidJSON(b []byte) bool {
+	i := 0
+	ws := func() {
+		for i < len(b) && (b[i] == ' ' || b[i] == '\t' || b[i] == '\n' || b[i] == '\r' || b[i] < 0x20) {
+			i++
+		}
+	}
+	str := func() bool {
+		if i >= len(b) || b[i] != '"' {
+			return false
+		}
+		i++
+		for i < len(b) {
+			switch b[i] {
+			case '\\':
+				i += 2
+				continue
+			case '"':
+				i++
+				return true
+			}
+			i++
+		}
+		return false
+	}
+	var value func(depth int) bool
+	value = func(depth int) bool {
+		if depth > 200 {
+			return false
+		}
+		ws()
+		if i >= len(b) {
+			return false
+		}
+		switch b[i] {
+		case '{':
+			i++
+			ws()
+			if i < len(b) && b[i] == '}' {
+				i++
+				return true
+			}
+			for {
+				ws()
+				if !str() {
+					return false
+				}
+				ws()
+				if i >= len(b) || b[i] != ':' {
+					return false
+				}
+				i++
+				if !value(depth + 1) {
+					return false
+				}
+				ws()
+				if i >= len(b) {
+					return false
+				}
+				if b[i] == ',' {
+					i++
+					continue
+				}
+				if b[i] == '}' {
+					i++
+					return true
+				}
+				return false
+			}
+		case '[':
+			i++
+			ws()
+			if i < len(b) && b[i] == ']' {
+				i++
+				return true
+			}
+			for {
+				if !value(depth + 1) {
+					return false
+				}
+				ws()
+				if i >= len(b) {
+					return false
+				}
+				if b[i] == ',' {
+					i++
+					continue
+				}
+				if b[i] == ']' {
+					i++
+					return true
+				}
+				return false
+			}
+		case '"':
+			return str()
+		case '}', ']', ',', ':':
+			return false
+		}
+		// a scalar: anything up to the next structural byte or blank
+		st := i
+		for i < len(b) && !strings.ContainsRune("{}[],:\" \t\r\n", rune(b[i])) {
+			i++
+		}
+		return i > st
+	}
+	if !value(0) {
+		return false
+	}
+	ws()
+	return i == len(b)
+}
+
+// unbalancedKeys: unbalanced parentheses in the part of the request target that carries entity keys
+// (the path, and the ids parameter of batch requests). Parameter names and unknown parameters are
+// left alone: unknown parameters are skipped by design.
+func unbalancedKeys(uri string) bool {
+	path, query := uri, ""
+	if i := strings.IndexByte(uri, '?'); i >= 0 {
+		path, query = uri[:i], uri[i+1:]
+	}
+	if strings.Count(path, "(") != strings.Count(path, ")") {
+		return true
+	}
+	for _, kv := range strings.Split(query, "&") {
+		if strings.HasPrefix(kv, "ids=") && strings.Count(kv, "(") != strings.Count(kv, ")") {
+			return true
+		}
+	}
+	return false
+}
+
+// takesBody: does the method read its request body at all? (An action without parameters ignores
+// the body by design: "it's valid for an action with no parameters to supply an empty POST body".)
+func takesBody(call *Call) bool {
+	if !strings.HasSuffix(call.Method, "Action") {
+		return true
+	}
+	for _, a := range call.Args {
+		if a.Kind() == reflect.Ptr && a.Elem().Kind() == reflect.Struct && strings.HasSuffix(a.Elem().Type().Name(), "ActionParams") {
+			return true
+		}
+	}
+	return false
+}
+
+// panicClass: which kind of run-time error a recovered panic was.
+func panicClass(body []byte) string {
+	s := string(body)
+	switch {
+	case strings.Contains(s, "index out of range"):
+		return "index-out-of-range"
+	case strings.Contains(s, "nil pointer"):
+		return "nil-pointer"
+	case strings.Contains(s, "slice bounds"):
+		return "slice-bounds"
+	}
+	return "other"
 }
 
 func bodyOf(wire []byte) []byte {
